@@ -1,6 +1,7 @@
 package main
 
 import (
+	"encoding/json"
 	"flag"
 	"fmt"
 	"os"
@@ -35,6 +36,22 @@ func main() {
 		cmdCheck(os.Args[2:])
 	case "matrix":
 		cmdMatrix(os.Args[2:])
+	case "locals":
+		// records (type, ordinal) of every local of every function under contract on the current tree
+		p, err := loadAll()
+		if err != nil {
+			fmt.Fprintln(os.Stderr, err)
+			os.Exit(2)
+		}
+		tab := map[string]map[string]localType{}
+		for _, f := range p.allFunctions() {
+			n := p.contractName(f.fn)
+			if p.Contracts.Funcs[n] != nil {
+				tab[n] = localsOf(f.fn)
+			}
+		}
+		data, _ := json.MarshalIndent(tab, "", " ")
+		_ = os.WriteFile(filepath.Join(verifDir, "contracts", "locals.json"), append(data, '\n'), 0o644)
 	case "replay":
 		cmdReplay(os.Args[2:])
 	case "refgen":
@@ -69,6 +86,9 @@ func loadAll() (*Program, error) {
 		return nil, err
 	}
 	p.Contracts = c
+	if data, err := os.ReadFile(filepath.Join(verifDir, "contracts", "locals.json")); err == nil {
+		_ = json.Unmarshal(data, &p.localsTable)
+	}
 	p.loadSecs = time.Since(t0).Seconds()
 	return p, nil
 }
